@@ -5,6 +5,14 @@ import json
 ALL = [f"C{i:02d}" for i in range(1, 20)]
 
 CHECKS = {
+    "C07": dict(
+        category="exploration", engine="E1", design_ref="DESIGN.md 2.5 (hostile names), 3/C07",
+        technique="bounded-exhaustive enumeration of hostile-name assignments to skeleton name slots x generator option sets x irregular XML/JSON samples, with import / bind / instantiate / duplicate-name oracles",
+        text=("XSD (with and without target namespace) and DTD skeletons with 10 name slots: every single slot x 67 hostile names (59 values for enumeration slots) and every same-scope slot pair x 19+ "
+              "names that collide after case / punctuation normalisation (thorough: each x 62 option sets incl. all 8 name cases per object type); every option set on the default names; every "
+              "G-tree document within the bound as an irregular XML sample (alone or in pairs) and 10 JSON shapes x hostile keys, x option sets. Generation must end in success or CodegenError; every "
+              "module must compile and import, every class must yield binding metadata and be instantiable, no scope may contain two fields or two classes of one name."),
+        note="stand-ins for jinja2/toposort/click/ruff (ruff no-op: formatting not checked); 120 s watchdog; one open known finding"),
     "C02": dict(
         category="exploration", engine="E1+G-xsd", design_ref="DESIGN.md 2.5 (G-xsd), 3/C02",
         technique="bounded-exhaustive enumeration of generated schemas x generator options x schema-derived instance documents, with libxml2 as independent validator and infoset oracle",
